@@ -119,7 +119,7 @@ def shard(ctx, budget_s):
         ctx.case(reset=False)
         for _ in range(12):
             e = gen.endp(rng, cfg, rng.random() < 0.5)
-            fl = Flow(ctx, e, gen.rnd_port(rng), gen.rnd_port(rng))
+            fl = Flow.fresh(ctx, e)
             r = ctx.send(fl.syn_frame())
             check_reach(ctx, ctx.history[-1], r, cfg)
             a = pkt.parse(r.reply) if r.kind == "R" else {}
